@@ -7,6 +7,7 @@ package concfam
 import (
 	"context"
 	"fmt"
+	"os"
 	"sort"
 	"strings"
 	"sync"
@@ -36,6 +37,13 @@ type c16ScanCase struct {
 	// but the last one takes this long, so that a status tick falls between the end of one
 	// root's walk and the start of the next.
 	TailDelayMs int `json:"tail_delay_ms,omitempty"`
+	// DelaySites moves the delay of the i-th of the three parallel scans from the directory
+	// listing to another operation of the walk: "stat", "open", "fstat", "read" (file system
+	// operations), "required", "extract" (plugin callbacks), "inode" (the stats collector's
+	// per-inode callback). The status goroutine then finds the walk at another place. The
+	// delay per operation is chosen from the operation count of the undelayed scan so that the
+	// scan outlasts the status interval.
+	DelaySites []string `json:"delay_sites,omitempty"`
 }
 
 type countingLogger struct {
@@ -73,15 +81,33 @@ func buildTree(c c16ScanCase, salt int) memfs.Tree {
 }
 
 // scanOnce scans the case's roots. tail maps the sequence numbers of Extract calls that are to
-// take c.TailDelayMs (nil: none); the sequence of calls is returned for that purpose.
-func scanOnce(c c16ScanCase, delay time.Duration, tail map[int]bool) ([]string, plugin.ScanStatusEnum, []recext.Call) {
+// take c.TailDelayMs (nil: none); the sequence of calls is returned for that purpose, and the
+// number of operations per delay site. site "" delays the directory listing steps.
+func scanOnce(c c16ScanCase, site string, delay time.Duration, tail map[int]bool) ([]string, plugin.ScanStatusEnum, []recext.Call, map[string]int) {
 	rec := &recext.Recorder{}
-	if tail != nil {
+	if tail != nil || site == "extract" {
 		rec.OnExtract = func(seq int, ext, p string) {
 			if tail[seq] {
 				time.Sleep(time.Duration(c.TailDelayMs) * time.Millisecond)
 			}
+			if site == "extract" {
+				time.Sleep(delay)
+			}
 		}
+	}
+	switch site {
+	case "required":
+		rec.OnRequired = func(ext, p string) { time.Sleep(delay) }
+	case "inode":
+		rec.OnInode = func(n int, p string) { time.Sleep(delay) }
+	}
+	opt := memfs.Options{ReadDirDelay: delay}
+	switch site {
+	case "":
+	case "required", "inode", "extract":
+		opt = memfs.Options{}
+	default:
+		opt = memfs.Options{SiteDelay: map[string]time.Duration{site: delay}}
 	}
 	specs := []recext.ExtSpec{
 		{Name: "fake/a", Pred: recext.Pred{Kind: "all"}, PkgsMod: 2},
@@ -92,8 +118,10 @@ func scanOnce(c c16ScanCase, delay time.Duration, tail map[int]bool) ([]string, 
 	for i := range specs {
 		cfg.FilesystemExtractors = append(cfg.FilesystemExtractors, filesystem.Extractor(&recext.FSExtractor{Spec: specs[i], Rec: rec}))
 	}
+	var fss []*memfs.FS
 	for r := 0; r < c.Roots; r++ {
-		cfg.ScanRoots = append(cfg.ScanRoots, &scalibrfs.ScanRoot{FS: memfs.New(buildTree(c, r), memfs.Options{ReadDirFile: r%2 == 0, ReadDirDelay: delay}), Path: ""})
+		fss = append(fss, memfs.New(buildTree(c, r), memfs.Options{ReadDirFile: r%2 == 0, ReadDirDelay: opt.ReadDirDelay, SiteDelay: opt.SiteDelay}))
+		cfg.ScanRoots = append(cfg.ScanRoots, &scalibrfs.ScanRoot{FS: fss[r], Path: ""})
 	}
 	res := scalibr.New().Scan(context.Background(), cfg)
 	var out []string
@@ -104,7 +132,18 @@ func scanOnce(c c16ScanCase, delay time.Duration, tail map[int]bool) ([]string, 
 		out = append(out, fmt.Sprintf("status %s %v", s.Name, s.Status.Status))
 	}
 	sort.Strings(out)
-	return out, res.Status.Status, rec.Calls
+	counts := map[string]int{"required": len(rec.Required), "extract": len(rec.Calls)}
+	for _, e := range rec.Events {
+		if strings.HasPrefix(e, "inode:") {
+			counts["inode"]++
+		}
+	}
+	for _, f := range fss {
+		for _, op := range f.Log() {
+			counts[op.Site]++
+		}
+	}
+	return out, res.Status.Status, rec.Calls, counts
 }
 
 var logMu sync.Mutex
@@ -119,7 +158,7 @@ func propC16Scan(c c16ScanCase) (ev.Outcome, error) {
 	lg := &countingLogger{}
 	scalibrlog.SetLogger(lg)
 	defer scalibrlog.SetLogger(&scalibrlog.DefaultLogger{})
-	fast, fastStatus, calls := scanOnce(c, 0, nil)
+	fast, fastStatus, calls, counts := scanOnce(c, "", 0, nil)
 	var tail map[int]bool
 	if c.TailDelayMs > 0 {
 		// the last Extract call on a file of each root but the last (file names carry the root)
@@ -139,6 +178,11 @@ func propC16Scan(c c16ScanCase) (ev.Outcome, error) {
 	}
 	// several delayed scans in parallel, so that the race detector sees real parallelism
 	const par = 3
+	for i, site := range c.DelaySites {
+		if i < par && counts[site] > 0 {
+			o.Classes = append(o.Classes, "scan_delay_at:"+site)
+		}
+	}
 	var wg sync.WaitGroup
 	slow := make([][]string, par)
 	slowStatus := make([]plugin.ScanStatusEnum, par)
@@ -146,7 +190,17 @@ func propC16Scan(c c16ScanCase) (ev.Outcome, error) {
 		wg.Add(1)
 		go func(i int) {
 			defer wg.Done()
-			slow[i], slowStatus[i], _ = scanOnce(c, time.Duration(c.DelayMs)*time.Millisecond, tail)
+			site, delay := "", time.Duration(c.DelayMs)*time.Millisecond
+			if i < len(c.DelaySites) && counts[c.DelaySites[i]] > 0 {
+				site = c.DelaySites[i]
+				// every root's walk has a status ticker of its own: each must outlast the interval
+				delay = 2600*time.Millisecond*time.Duration(c.Roots)/time.Duration(counts[site]) + time.Millisecond
+			}
+			t0 := time.Now()
+			slow[i], slowStatus[i], _, _ = scanOnce(c, site, delay, tail)
+			if os.Getenv("C16_DEBUG") != "" {
+				fmt.Printf("scan %d site=%q delay=%v count=%d took %v\n", i, site, delay, counts[site], time.Since(t0))
+			}
 		}(i)
 	}
 	wg.Wait()
@@ -156,6 +210,9 @@ func propC16Scan(c c16ScanCase) (ev.Outcome, error) {
 		}
 	}
 	ticks := lg.status.Load()
+	if os.Getenv("C16_DEBUG") != "" {
+		fmt.Printf("case %+v ticks=%d\n", c, ticks)
+	}
 	if ticks > 0 {
 		o.Classes = append(o.Classes, "status_ticker_fired")
 	} else {
@@ -165,13 +222,23 @@ func propC16Scan(c c16ScanCase) (ev.Outcome, error) {
 	return o, nil
 }
 
+var c16DelaySites = []string{"", "stat", "open", "fstat", "read", "required", "extract", "inode"}
+
 func genC16Scan(t *rapid.T) c16ScanCase {
 	// sized so that the walk takes 2.5-3.5 s: listing steps ~ dirs*(files+2)
 	dirs := rapid.IntRange(8, 14).Draw(t, "dirs")
 	files := rapid.IntRange(1, 3).Draw(t, "files_per")
 	steps := dirs * (files + 2)
 	c := c16ScanCase{Dirs: dirs, FilesPer: files, DelayMs: 2800/steps + 1, Roots: rapid.IntRange(1, 2).Draw(t, "roots")}
+	if rapid.Bool().Draw(t, "sites") {
+		// the first of the three parallel scans keeps the delay in the directory listing
+		c.DelaySites = []string{""}
+		for i := 1; i < 3; i++ {
+			c.DelaySites = append(c.DelaySites, rapid.SampledFrom(c16DelaySites).Draw(t, "site"))
+		}
+	}
 	if rapid.IntRange(0, 2).Draw(t, "tail") == 0 {
+		c.DelaySites = nil
 		// a status tick between two roots' walks
 		c.Roots = rapid.IntRange(2, 3).Draw(t, "tail_roots")
 		c.DelayMs = 0
@@ -198,6 +265,12 @@ func TestC16_scanroots(t *testing.T) {
 	for _, c := range []c16ScanCase{
 		{Dirs: 3, FilesPer: 2, Roots: 2, TailDelayMs: 2300},
 		{Dirs: 2, FilesPer: 1, Roots: 3, TailDelayMs: 2100},
+		// the three parallel scans of one case are slowed down at three different places
+		// (the first one in the directory listing, the others at two of the other places)
+		{Dirs: 8, FilesPer: 2, Roots: 1, DelayMs: 80, DelaySites: []string{"", "inode", "open"}},
+		{Dirs: 9, FilesPer: 1, Roots: 2, DelayMs: 60, DelaySites: []string{"", "read", "extract"}},
+		{Dirs: 8, FilesPer: 1, Roots: 1, DelayMs: 120, DelaySites: []string{"", "required", "fstat"}},
+		{Dirs: 10, FilesPer: 2, Roots: 1, DelayMs: 70, DelaySites: []string{"", "stat", "inode"}},
 	} {
 		o, err := ev.Safe(propC16Scan)(c)
 		if !en.Report(c, o, err) {
